@@ -241,4 +241,17 @@ def run(ck):
                                  "closeForUpdating stores %s into the %s anchor's splicingPoint: the stop slice of the chain being freed must be that same edition's" % (E.key(rhs)[:80], "/".join(l)))
     ck.need(nsp >= 1, "C55: closeForUpdating no longer records the stale anchor's splicingPoint")
 
+    def stale_splice(ev):
+        lhs = None
+        if ev.get("e") == "asg" and ev.get("op") == "=":
+            lhs = ev.get("lhs")
+        elif ev.get("e") == "call" and E.strip(ev["x"]).get("f", "").split("::")[-1] in ("operator=", "store") and "o" in E.strip(ev["x"]):
+            lhs = E.strip(ev["x"])["o"]
+        return lhs is not None and E.m_is_mem("splicingPoint")(lhs) and any(n.get("k") == "mem" and n.get("m", "").endswith("::anchor") for n in E.walk(lhs)) and \
+            any(n.get("k") == "mem" and n["m"].split("::")[-1] == "stale" for n in E.walk(lhs))
+    free_stale = lambda ev: ev.get("e") == "call" and E.strip(ev["x"]).get("f") == SM + "freeEntry" and \
+        any(n.get("k") == "mem" and n["m"].split("::")[-1] == "stale" for a_ in E.strip(ev["x"]).get("a", []) for n in E.walk(a_))
+    ck.require_passed("S9.splice-label", ck.flow(cu, markers={"stale-splice": stale_splice}), free_stale, "stale-splice", "freeEntry(update.stale.fileNo)",
+                      why="(the stale chain would be freed without its stop slice: the suffix shared with the fresh entry is freed too)")
+
     ck.assume("visibility/ordering of the index across processes is not decided; per-anchor aliasing (which anchor a lock belongs to) is not tracked")
